@@ -29,7 +29,8 @@ impl OutputFormat for Ascii {
             let line_length = buf.get_line_length(pos.y);
             while pos.x < line_length {
                 let ch = buf.get_char(pos);
-                result.push(if ch.ch == '\0' { b' ' } else { ch.ch as u8 });
+                // NUL and 0xFF are no characters for the ASCII parser (it resets the colour and prints nothing): both are blank glyphs
+                result.push(if ch.ch == '\0' || ch.ch == '\u{ff}' { b' ' } else { ch.ch as u8 });
                 pos.x += 1;
             }
 
